@@ -158,7 +158,7 @@ func c03Case(rng *rand.Rand, cs int) {
 				fwd = 63
 			}
 			id := 10 + i
-			hs[i] = newProbe(mask, &probe{id: id, fwd: fwd, env: env})
+			hs[i] = mkProbe(rng, mask, &probe{id: id, fwd: fwd, env: env})
 			emit("C03 hdl %d %d %d", id, mask, fwd)
 		}
 		pick := func() ([]netty.Handler, string) {
